@@ -1,16 +1,30 @@
 // Package limiter is the runtime monitor for property C13 (the rate limiter never admits more
 // than its algorithm allows, under any interleaving). See DESIGN.md 3.C13.
 //
-// "limiter"      vt build, GOMAXPROCS=1. Families:
+// "limiter" — vt build, GOMAXPROCS=1. Families:
 //
-//	timed  sequential timed histories on the virtual clock, every response judged against
-//	       an executable sequential specification written from the documentation (spec.go);
-//	sched  2-4 concurrent requests interleaved by the deterministic scheduler at every
-//	       storage call / callback / handler boundary; conservation + linearizability.
+//	corpus  fixed histories and small exhaustive schedules: plain behaviour of both algorithms
+//	        on both backends, and the smallest witness of every defect found (corpus.go);
+//	timed   sequential timed histories on the virtual clock (1-4 keys, Max 1-5, MaxFunc per
+//	        request, Expiration 1-5 s, fixed / sliding, memory / injected storage, skip options,
+//	        handlers answering 2xx-5xx, returning errors, sleeping). Every response is judged
+//	        against an executable sequential specification written from the documentation
+//	        (spec.go, judge.go); one key in three multi-key histories is replayed alone
+//	        (cross-key solo differential);
+//	sched   2-3 concurrent requests on the injected storage, EVERY schedule (depth-first) over
+//	        the boundaries Storage.Get/Set, MaxFunc, KeyGenerator, handler entry/exit;
+//	walk    3-4 concurrent requests, one seeded random schedule per case.
+//	        Oracles of both: no deadlock, no panic, conservation counted from handler-entry
+//	        events, linearizability of the acquire/refund history with porcupine (sched.go).
 //
-// "limiter.race" -race build, real time, coarse clock pinned: N goroutines on 1-3 keys,
+// "limiter.race" — -race build, real time, coarse clock pinned: 64-512 goroutines per key on
+// 1-3 keys of the memory backend; exactly Max requests per key reach the handler (race.go).
 //
-//	admitted == Max per key exactly.
+// Signatures: clause|algorithm|input class. Clauses: over-admit, reject-with-budget,
+// retry-after, headers|remaining, headers|reset, limit-not-from-MaxFunc, cross-key-interference,
+// not-linearizable, deadlock, panic. Input classes of the timed family, computed from the
+// history alone: handler-returned-error (with the skip option instead of the algorithm),
+// after-late-refund, after-refund, idle-window, else the backend (memory / storage).
 package limiter
 
 import (
@@ -28,7 +42,7 @@ func run(e *ev.Env) {
 	vt.Require()
 	vt.Start()
 	corpus(e)
-	e.Cases("sched", e.N(60, 1200), func(c *ev.Case) { runSched(e, c) })
+	e.Cases("sched", e.N(96, 1600), func(c *ev.Case) { runSched(e, c) })
 	e.Cases("walk", e.N(600, 100000), func(c *ev.Case) { runWalk(e, c) })
 	e.Cases("timed", e.N(3000, 300000), func(c *ev.Case) { runTimed(e, c) })
 }
